@@ -294,7 +294,11 @@ func c05Pedersen[P curves.Point[P, F, S], F algebra.FiniteFieldElement[F], S alg
 		return
 	}
 	x.key = key
-	scheme, err := pedersen.NewScheme(key, as.ac)
+	var scheme *pedersen.Scheme[P, S]
+	if p := safely(func() string { scheme, err = pedersen.NewScheme(key, as.ac); return "" }); p != "" {
+		c.Violation("pedersen.NewScheme panicked for " + as.family + ": " + p)
+		return
+	}
 	if err != nil {
 		c.Note("pedersen.NewScheme rejected " + as.family)
 		c.Count("pedersen.scheme.rejected." + as.family)
